@@ -35,7 +35,7 @@ func (cc *compCase) nextSite() int { cc.site++; return cc.site }
 // placeholders at the top level of the file
 func genComponentFile(c *core.Ctx, idx int) (compDef, []model.Stmt) {
 	r := c.Rng
-	def := compDef{name: []string{"components/card", "components/box.v2", "ui/panel", "components/list.min", "components/odd.tw", "ui/card~v2", "components/item~"}[idx%7]}
+	def := compDef{name: []string{"components/card", "components/box.v2", "ui/panel", "components/list.min", "components/odd.tw", "ui/card~v2", "components/item~", ".partials/item", "components/.hidden", "ui/..card"}[idx%10]}
 	nArgs := r.Intn(3)
 	for a := 0; a < nArgs; a++ {
 		def.args = append(def.args, fmt.Sprintf("p%d", a))
@@ -108,6 +108,13 @@ func (cc *compCase) genUse(c *core.Ctx, def compDef, scopeVar string, forceNoSlo
 				}
 			case 2:
 				v = model.StrLit{S: ""}
+				if r.Intn(2) == 0 {
+					// a nested object literal: its closing brace stands right before the one of the argument object
+					v = model.ObjLit{Keys: []string{"k", "n"}, Vals: []model.Expr{model.StrLit{S: fmt.Sprintf("s%d.%s.k", site, a)}, model.ObjLit{Keys: []string{"deep"}, Vals: []model.Expr{model.Lit{V: model.Int(int64(site))}}}}}
+					ol.Keys = append(ol.Keys, a)
+					ol.Vals = append(ol.Vals, v)
+					continue
+				}
 			default:
 				v = model.StrLit{S: fmt.Sprintf("s%d.%s", site, a)}
 			}
@@ -202,6 +209,13 @@ func genComponentTree(c *core.Ctx, i int) *compCase {
 		def := cc.comps[0]
 		cc.tree.files["withlayout"] = []model.Stmt{model.Use{Name: "~shell"}, model.Insert{Name: "body", Block: []model.Stmt{model.Text{S: "in-insert "}, cc.genUse(c, def, "", false), model.Text{S: "|"}, cc.genUse(c, def, "", false), model.Text{S: " done"}}}}
 		cc.pages = append(cc.pages, "withlayout")
+	}
+	// the reserve sits in a loop of the layout: the insert block, and the component in it, is evaluated per pass
+	if r.Intn(3) == 0 {
+		cc.tree.files["layouts/loopshell"] = []model.Stmt{model.Text{S: "<loop>"}, model.Each{Var: "cell", Arr: model.Var{Name: "da"}, Body: []model.Stmt{model.Text{S: "("}, model.Print{E: model.Dot{X: model.Var{Name: "loop"}, Name: "index"}}, model.Text{S: ":"}, model.Reserve{Name: "body"}, model.Text{S: ")"}}}, model.Text{S: "</loop>"}}
+		def := cc.comps[r.Intn(len(cc.comps))]
+		cc.tree.files["withloop"] = []model.Stmt{model.Use{Name: "~loopshell"}, model.Insert{Name: "body", Block: []model.Stmt{model.Text{S: "cell "}, model.Print{E: model.Var{Name: "cell"}}, model.Text{S: " "}, cc.genUse(c, def, "cell", false)}}}
+		cc.pages = append(cc.pages, "withloop")
 	}
 	return cc
 }
